@@ -161,7 +161,8 @@ def random_script(rnd, ntasks=3, peers=(1000,), horizon=14, maxsims=(0, 0, 1, 2)
         elif x < 0.30: cmds.append('R')
         elif x < 0.62: cmds.append('D\t%d' % rnd.randint(0, 5))
         elif x < 0.70: cmds.append('DA')
-        elif x < 0.88: cmds.append('XI\t%d' % rnd.randint(0, 5))
+        elif x < 0.86: cmds.append('XI\t%d' % rnd.randint(0, 5))
+        elif x < 0.88: cmds.append('%s\t%d' % (rnd.choice(['XS', 'XC', 'XC']), rnd.randint(0, 5)))       # a running job is stopped / continued
         elif x < 0.95: add(rnd.choice(uids))
         elif cancel:
             it = {'kind': 'cancel', 'uid': rnd.choice(uids), 'peer': rnd.choice(peers)}
@@ -232,6 +233,49 @@ def colliding_uids(drv, wd, n=150000):
         gs.sort(key=len, reverse=True)
         res += [(bits, g[:4]) for g in gs[:6]]
     return res
+
+
+def blocked_uids(drv, wd, rnd, n=150000, k=6):
+    """(target, blockers): UID strings chosen with the real hash so that the nine places the UID table of the process probes first
+    for the target (bits 0..7, 3..10, ... of its key) are all taken by the blockers' first places: the target ends up in the
+    table's overflow area.  Input selection only."""
+    out = subprocess.run([drv, wd, 'uids', str(n)], capture_output=True, text=True, timeout=120).stdout
+    cand = [(l.split()[0], int(l.split()[1])) for l in out.split('\n') if l]
+    bylow = {}
+    for u, h in cand: bylow.setdefault(h & 0xff, []).append(u)
+    res = []
+    for _ in range(k):
+        t, h = rnd.choice(cand)
+        blk = []
+        for j in range(9):
+            p = (h >> (3 * j)) & 0xff
+            c = [u for u in bylow.get(p, []) if u != t and u not in blk]
+            if c: blk.append(rnd.choice(c))
+        res.append((t, blk))
+    return res
+
+
+def overflow_script(rnd, target, blockers):
+    """another user's UIDs fill the places the table tries first for this user's UID; the UID must behave like any other"""
+    cmds, metas = [], {}
+    FAR = 5000
+    a, b = rnd.sample([1000, 1001, 1002], 2)
+    def req(p, items, method='PUBLISH'):
+        metas[len(cmds)] = items; cmds.append(areq(rnd, p, request(items, method)))
+    def add(uid, p):
+        it = {'kind': 'add', 'uid': uid, 'occ': [FAR + rnd.randint(0, 50)], 'maxsim': 0, 'peer': p}; it['start'] = secs(min(it['occ'])); return it
+    blk = list(blockers); rnd.shuffle(blk)
+    for i in range(0, len(blk), 3): req(b, [add(u, b) for u in blk[i:i + 3]])
+    req(a, [add(target, a)])
+    metas[len(cmds)] = {'what': 'queue'}; cmds.append('H\t%d\tGET /queue HTTP/1.1' % a)
+    metas[len(cmds)] = {'what': 'sched'}; cmds.append('H\t%d\tGET /sched HTTP/1.1' % a)
+    req(a, [add(target, a)])                                       # replace
+    req(b, [{'kind': 'cancel', 'uid': target, 'peer': b}], 'CANCEL')   # not his
+    metas[len(cmds)] = {'what': 'queue'}; cmds.append('H\t%d\tGET /queue HTTP/1.1' % a)
+    req(a, [{'kind': 'cancel', 'uid': target, 'peer': a}], 'CANCEL')
+    metas[len(cmds)] = {'what': 'queue'}; cmds.append('H\t%d\tGET /queue HTTP/1.1' % a)
+    metas[len(cmds)] = {'what': 'queue'}; cmds.append('H\t%d\tGET /queue HTTP/1.1' % b)
+    return cmds, metas
 
 
 def map_script(rnd, uidpool, peers=(1000, 1001, 1002, 0, 4242), nreq=8, listy=False):
